@@ -128,7 +128,7 @@ def candidates(it, s):
     for k in upto(len(peering)):
         a, b = peering[k]
         sps = [sp for sp in s.cps_of_service(a) if s.typ(sp) == "ServicePort"
-               and any(b in s.service_of_cp(p) for p in s.peers_of_cp(sp))]
+               and any(s.typ(p) == "ServicePort" and b in s.service_of_cp(p) for p in s.peers_of_cp(sp))]
         out.append(({"op": "unpeer", "k": k, "h": k % 2}, sps[:1]))
     if it.flavour == "experiment":
         for state in topo.RES_STATES:
@@ -140,11 +140,8 @@ def candidates(it, s):
                 scope |= set(s.components_of(n))
             scope |= set(s.ids("NetworkService"))
             for sv in s.ids("NetworkService"):
-                o = s.owner_of_service(sv)
-                # services/interfaces below facilities are not visited by prune
-                if o and s.cls(o[0]) == "NetworkNode" and s.typ(o[0]) == "Facility":
-                    scope.discard(sv)
-                    continue
+                # prune walks topology.network_services, which lists every service of the model - also those of
+                # facilities (whose nodes it does not visit)
                 scope |= set(s.cps_of_service(sv))
             for x in scope:
                 if marker in str(s.nodes[x].get("ReservationInfo", "")):
